@@ -7,7 +7,7 @@ use crate::util::*;
 use futures::{FutureExt, StreamExt};
 use litep2p::{
     protocol::notification::{
-        verif::{VerifBounded, VerifPoll, VerifServiceCall},
+        verif::{verif_open_log, VerifBounded, VerifPoll, VerifServiceCall},
         NotificationError, NotificationEvent, NotificationHandle, NotificationSink, ValidationResult,
     },
     PeerId,
@@ -120,6 +120,11 @@ impl IoCtl {
         s.read_eof = true;
         s.write_err = true;
     }
+    /// the remote sends a frame whose length prefix exceeds the maximum: the codec reports an error
+    fn push_bad_frame(&self) {
+        let mut s = self.0.lock().unwrap();
+        s.read_buf.extend([0xd0u8, 0x0f]);
+    }
 }
 
 // ---------------------------------------------------------------- one run
@@ -150,6 +155,10 @@ struct Run {
     real_fired: usize,
     /// the case contains a SleepAll: hook-fired Timer events are skipped
     no_hook_timers: bool,
+    /// service calls already taken from the driver in this step (batch commands look at them early)
+    stash_calls: Vec<VerifServiceCall>,
+    /// the order in which the protocol worked through the peers of the batch command of this step
+    batch_order: Option<u64>,
 }
 
 fn newest_live(v: &[IoCtl]) -> Option<IoCtl> {
@@ -338,7 +347,8 @@ impl Run {
             }
             4 => {
                 if let (Some(_), Some(sid)) = (self.connected[p], self.pending_sids[p].pop_front()) {
-                    self.notif.driver().inject_substream_open_failure(sid);
+                    // every SubstreamError variant (the handler only logs it)
+                    self.notif.driver().inject_substream_open_failure_kind(sid, arg as usize, peer);
                 }
             }
             5 => self.notif.driver().inject_dial_failure(peer),
@@ -437,12 +447,19 @@ impl Run {
                             // the remote sends a notification on the open stream
                             a.push_notification(gid);
                         }
-                        if (arg != 0 && kind != 17) || kind == 16 {
+                        if (arg & 1 != 0 && kind != 17) || kind == 16 {
                             a.0.lock().unwrap().shutdown_gated = true;
                             b.0.lock().unwrap().shutdown_gated = true;
                         }
                         if kind == 13 || kind == 18 {
-                            a.0.lock().unwrap().read_eof = true;
+                            // what ends the stream: the remote closes its side, sends a frame the codec
+                            // rejects, or the outbound substream reports a write error (not after a last
+                            // notification: the write error would be noticed before the notification is read)
+                            match (arg >> 1) % (if kind == 18 { 2 } else { 3 }) {
+                                0 => a.0.lock().unwrap().read_eof = true,
+                                1 => a.push_bad_frame(),
+                                _ => b.0.lock().unwrap().write_err = true,
+                            }
                         }
                     }
                 }
@@ -460,8 +477,43 @@ impl Run {
             }
             15 => {
                 if self.connected[p].is_some() {
-                    self.notif.driver().kill_connection_channel(peer);
+                    if arg == 0 {
+                        self.notif.driver().kill_connection_channel(peer);
+                    } else {
+                        self.notif.driver().clog_connection_channel(peer);
+                    }
                 }
+            }
+            26 | 27 => {
+                // one command for several peers
+                let members: Vec<usize> = batch_peers(arg);
+                let ids: Vec<PeerId> = members.iter().map(|i| self.peers[*i]).collect();
+                verif_open_log::enable(true);
+                if kind == 26 {
+                    let _ = self.handle.open_substream_batch(ids.into_iter()).now_or_never();
+                } else {
+                    let _ = self.handle.close_substream_batch(ids.into_iter()).now_or_never();
+                }
+                self.settle();
+                // the order the protocol took the peers in: the order of its open_substream calls (a call
+                // consumes a substream id even when it fails); the other peers' turns leave no trace
+                let calls = self.notif.driver().take_service_calls();
+                let asked: Vec<usize> = verif_open_log::take().iter().map(|q| self.pidx(q)).collect();
+                verif_open_log::enable(false);
+                let mut order: Vec<usize> = Vec::new();
+                for i in asked {
+                    if members.contains(&i) && !order.contains(&i) {
+                        order.push(i);
+                    }
+                }
+                for i in members.iter() {
+                    if !order.contains(i) {
+                        order.push(*i);
+                    }
+                }
+                self.batch_order = Some(batch_code(&order));
+                self.stash_calls.extend(calls);
+                return;
             }
             _ => {}
         }
@@ -473,6 +525,9 @@ impl Run {
     }
 
     fn observe(&mut self, out: &mut Vec<u64>) {
+        if self.batch_order.is_some() {
+            self.events.sort_by_key(|e| e[1]);
+        }
         out.push(self.events.len() as u64);
         for e in self.events.drain(..) {
             out.extend(e);
@@ -486,23 +541,32 @@ impl Run {
                 *off += 3;
             }
         }
-        let calls = self.notif.driver().take_service_calls();
-        out.push((calls.len() + self.rets.len()) as u64);
-        for r in self.rets.drain(..) {
-            out.extend(r);
-        }
+        let mut calls: Vec<VerifServiceCall> = self.stash_calls.drain(..).collect();
+        calls.extend(self.notif.driver().take_service_calls());
+        let mut call_rows: Vec<[u64; 3]> = Vec::new();
         for c in calls {
             match c {
-                VerifServiceCall::Dial(peer) => out.extend([0, self.pidx(&peer) as u64, 0]),
+                VerifServiceCall::Dial(peer) => call_rows.push([0, self.pidx(&peer) as u64, 0]),
                 VerifServiceCall::OpenSubstream(peer, sid) => {
                     let i = self.pidx(&peer);
                     if i < NP {
                         self.pending_sids[i].push_back(sid);
                     }
-                    out.extend([1, i as u64, sid as u64]);
+                    call_rows.push([1, i as u64, sid as u64]);
                 }
-                VerifServiceCall::ForceClose(peer) => out.extend([2, self.pidx(&peer) as u64, 0]),
+                VerifServiceCall::ForceClose(peer) => call_rows.push([2, self.pidx(&peer) as u64, 0]),
             }
+        }
+        if self.batch_order.is_some() {
+            // a batch command: events and calls of the step are printed sorted by peer (one each at most)
+            call_rows.sort_by_key(|r| r[1]);
+        }
+        out.push((call_rows.len() + self.rets.len()) as u64);
+        for r in self.rets.drain(..) {
+            out.extend(r);
+        }
+        for r in call_rows {
+            out.extend(r);
         }
         for p in 0..NP {
             let peer = self.peers[p];
@@ -524,7 +588,27 @@ impl Run {
     }
 }
 
-fn run_case(c: &[u64]) -> Option<Vec<u64>> {
+/// peers of a batch command: base-4 digits of the argument, least significant first, digit = peer + 1
+fn batch_peers(arg: u64) -> Vec<usize> {
+    let mut v = Vec::new();
+    let mut a = arg;
+    while a % 4 != 0 && v.len() < NP {
+        let p = (a % 4 - 1) as usize;
+        if !v.contains(&p) {
+            v.push(p);
+        }
+        a /= 4;
+    }
+    v
+}
+
+fn batch_code(order: &[usize]) -> u64 {
+    order.iter().rev().fold(0u64, |acc, p| acc * 4 + *p as u64 + 1)
+}
+
+/// Runs the case; returns the trace and the case as it was run (the argument of a batch command is
+/// rewritten to the order in which the implementation worked through its peers).
+fn run_case(c: &[u64]) -> Option<(Vec<u64>, Vec<u64>)> {
     if c.len() < 4 {
         return None;
     }
@@ -533,7 +617,7 @@ fn run_case(c: &[u64]) -> Option<Vec<u64>> {
         return None;
     }
     for i in 0..nops {
-        if c[4 + 3 * i] > 25 || c[5 + 3 * i] >= NP as u64 {
+        if c[4 + 3 * i] > 27 || c[5 + 3 * i] >= NP as u64 {
             return None;
         }
     }
@@ -541,7 +625,7 @@ fn run_case(c: &[u64]) -> Option<Vec<u64>> {
     let dialable: Vec<PeerId> = (0..NP).filter(|i| mask >> i & 1 == 1).map(|i| peers[i]).collect();
     let cap = (mask >> 3) as usize;
     let lazy = cap > 0;
-    if lazy && (0..nops).any(|i| c[4 + 3 * i] == 19) || !lazy && (0..nops).any(|i| c[4 + 3 * i] == 25) {
+    if lazy && (0..nops).any(|i| matches!(c[4 + 3 * i], 19 | 26 | 27)) || !lazy && (0..nops).any(|i| c[4 + 3 * i] == 25) {
         return None;
     }
     let (notif, handle) = VerifBounded::new(
@@ -569,7 +653,10 @@ fn run_case(c: &[u64]) -> Option<Vec<u64>> {
         events: Vec::new(),
         real_fired: 0,
         no_hook_timers: (0..nops).any(|i| c[4 + 3 * i] == 19),
+        stash_calls: Vec::new(),
+        batch_order: None,
     };
+    let mut ran: Vec<u64> = c.to_vec();
     let mut out = vec![1u64];
     for i in 0..nops {
         let (kind, p, arg) = (c[4 + 3 * i], c[5 + 3 * i] as usize, c[6 + 3 * i]);
@@ -577,7 +664,7 @@ fn run_case(c: &[u64]) -> Option<Vec<u64>> {
         if !ok {
             // debug_assert!(false) / Poisoned survivor: the protocol is stuck
             out.push(2);
-            return Some(out);
+            return Some((out, ran));
         }
         out.push(1);
         if lazy {
@@ -585,8 +672,11 @@ fn run_case(c: &[u64]) -> Option<Vec<u64>> {
         } else {
             run.observe(&mut out);
         }
+        if let Some(code) = run.batch_order.take() {
+            ran[6 + 3 * i] = code;
+        }
     }
-    Some(out)
+    Some((out, ran))
 }
 
 // ---------------------------------------------------------------- generator
@@ -614,7 +704,20 @@ fn random_op(rng: &mut Rng, slow: bool) -> (u64, u64) {
         99 => rng.pick(&[15u64, 20, 21, 22, 23, 24]),
         _ => 15,
     };
-    let arg = if kind == 13 || kind == 18 { (slow && rng.chance(50)) as u64 } else { arg };
+    let arg = match kind {
+        // bit 0: the substream closes are held back; above: what ends the stream (EOF, error frame, write error)
+        13 | 18 => (slow && rng.chance(50)) as u64 + 2 * rng.pick(&[0u64, 0, 0, 1, 2]),
+        4 => rng.below(8),
+        15 => rng.chance(30) as u64,
+        _ => arg,
+    };
+    // now and then one command for several peers
+    if rng.chance(3) {
+        let set: Vec<usize> = (0..NP).filter(|_| rng.chance(60)).collect();
+        if !set.is_empty() {
+            return (if rng.chance(70) { 26 } else { 27 }, batch_code(&set));
+        }
+    }
     (kind, arg)
 }
 
@@ -822,7 +925,7 @@ fn gen_lcase(rng: &mut Rng, thorough: bool) -> Vec<u64> {
     let mut ops: Vec<[u64; 3]> = Vec::new();
     for i in 0..nops {
         let o = [base[4 + 3 * i], base[5 + 3 * i], base[6 + 3 * i]];
-        if (19..=24).contains(&o[0]) {
+        if (19..=24).contains(&o[0]) || o[0] == 26 || o[0] == 27 {
             continue;
         }
         ops.push(o);
@@ -860,18 +963,18 @@ pub fn main(args: &Args) {
     } else if let Some(d) = args.str("corpus") {
         stored = read_cases(Path::new(d));
     }
-    let run = |c: &[u64]| -> Vec<u64> {
+    let run = |c: &[u64]| -> (Vec<u64>, Vec<u64>) {
         catch_unwind(AssertUnwindSafe(|| run_case(c)))
-            .unwrap_or(Some(vec![PANIC_MARK]))
-            .unwrap_or(vec![0])
+            .unwrap_or(Some((vec![PANIC_MARK], c.to_vec())))
+            .unwrap_or((vec![0], c.to_vec()))
     };
     for c in stored.iter() {
         let sleeps = c.len() >= 4 && (0..c[3] as usize).any(|i| c.get(4 + 3 * i) == Some(&19));
         if sleeps && !thorough && args.str("replay").is_none() {
             continue; // real 5 s sleeps: thorough tier only
         }
-        let t = run(c);
-        out.emit(c, &t);
+        let (t, ran) = run(c);
+        out.emit(&ran, &t);
     }
     if args.str("replay").is_some() {
         return;
@@ -887,7 +990,7 @@ pub fn main(args: &Args) {
         } else {
             gen_case(&mut r, thorough)
         };
-        let t = run(&c);
-        out.emit(&c, &t);
+        let (t, ran) = run(&c);
+        out.emit(&ran, &t);
     }
 }
